@@ -432,9 +432,11 @@ package flushable
 //@   ensures  result1 == nil ==> result0 != nil
 //@
 //@ // Initialize / OpenDB (C28, lock discipline): the pool's table is only reached with the pool's mutex held. The method
-//@ // checkDBsSynced (takes the mutex itself, opens every database, then calls CheckDBsSynced) is assumed lock-neutral.
+//@ // Initialize is ONE critical section (lock.atomic): its helper checkDBsSynced (opens every database of the table, then
+//@ // calls CheckDBsSynced) is called with the mutex held -- that is its precondition, proved at the call; its body is
+//@ // assumed to keep the locks as they are.
 //@ trusted func (*SyncedPool).checkDBsSynced
-//@   requires p != nil
+//@   requires p != nil && wlocked(p.Mutex)
 //@   ensures  true
 //@ func (*SyncedPool).Initialize
 //@   requires p != nil && p.wrappers != nil
